@@ -144,6 +144,11 @@ def _time_type(t, v):
     return t["k"] == "STRING" and t["st"] in ("UTCTime", "GeneralizedTime")
 
 
+def _utctime_noncanonical(t, v):
+    # not YYMMDDHHMMSSZ (X.690 11.8)
+    return t["k"] == "STRING" and t.get("st") == "UTCTime" and not (len(v) == 13 and v[-1] == 90)
+
+
 def _numeric_string(t, v):
     return t["k"] == "STRING" and t["st"] == "Numeric" and not t["alpha"]
 
@@ -327,6 +332,8 @@ PREDS = {
     "real_mantissa_leading_zero": any_leaf(_real_mantissa_leading_zero),
     "real_subnormal": any_leaf(_real_subnormal),
     "time_type": any_leaf(_time_type),
+    # the session value (not the structure the op works on: a canonical twin of it is encoded differently too)
+    "utctime_noncanonical": lambda M, scn, op, ev: any(_utctime_noncanonical(t, v) for t, v in leaves(M, {"k": "REF", "n": scn["ty"]}, scn["val"])),
     "real_bxer_lossy": any_leaf(_real_bxer_lossy),
     "numeric_string": any_leaf(_numeric_string),
     "string_out_of_root": any_leaf(_string_out_of_root),
